@@ -16,4 +16,5 @@ func genAll() {
 	genBeaconNode()
 	genDKGRun()
 	genSync()
+	genHandler()
 }
